@@ -23,7 +23,25 @@ RULE = ("(1) the parameter splitter on every text of length <= 5 over {a , space
         "<list>[a:b].<key | key.key | key[0]> over every list of hashes of 4 fixed + 60 seeded documents (3-5 members, equal "
         "members likely; every slice of the fixed, 4 per seeded list; mostly >= 2 members selected; both notations): "
         "parent(n) n in default,0..4, name() of each climbed ancestor, name() of the reached nodes, and each parent() result "
-        "must be held by its reported parent under its reported parentref; has_child on hashes, lists, nulls, scalars; "
+        "must be held by its reported parent under its reported parentref; parent(n) AS THE FILTER OF A WILDCARD: "
+        "<container>.*[parent(n)] and <container>.**[parent(n)] for every non-empty container (the root included, so the selected "
+        "nodes start at depth 1) of the 14 + 6 fixed and 40 seeded documents, n in default, 0..4 up to one level above the root, "
+        "name() of each climbed ancestor, and chained climbs ...*[parent(m)][parent(n)] that end at the root or one level above it, "
+        "a third in forward-slash notation - expected: the n-th ancestor of every child (*) / of every node at or below the "
+        "container, a node before its children (**), in order, and a refusal only where such a node has fewer than n ancestors "
+        "(the wildcards evaluate the following segment twice, as a test and for the result: the answer must not depend on it); "
+        "has_child(&NAME) - ANCHORED children, YAML merge keys, and HISTORIES on one document object: 300 seeded documents loaded from "
+        "YAML text (1-3 anchored source hashes, a later one may merge an earlier one; 2-5 hashes merging one or two of them through "
+        "`<<: *m` / `<<: [*m, *n]` or none, holding anchored scalar values, aliases of them and anchored keys; 40 % with an "
+        "Array-of-Hashes of such records), one Processor per document: every [has_child(&NAME)] / [!has_child(&NAME)] for every anchor "
+        "name of the document and an unknown one over the root's hashes (`/*`, `/h*`), over the Array-of-Hashes (`/lst`, `lst.*`) and on "
+        "one hash, then 0-3 edit steps through the SAME Processor (ymk_nodes with a new / the present / a generated anchor name, "
+        "alias_nodes, set_value replacing or creating, delete_nodes of keys and of whole hashes) with all queries asked again after "
+        "each step (names that disappeared included) - judged directly by the clause on the CURRENT content: exactly the hashes having "
+        "(inverted: lacking) a key, a value or a merge reference carrying that Anchor / Alias name; plus 7 non-anchor keyword / "
+        "search queries per step compared with a fresh Processor over an independent copy (dump + load) of the current content "
+        "(an answer may depend on the document's content only, never on what was asked or changed before); "
+        "has_child on hashes, lists, nulls, scalars; "
         "keys that a parameter can only name quoted or escaped (17 keys holding literal backslashes, commas, quotes, inner / edge "
         "blanks) as the attribute / child key of Arrays-of-Hashes, hashes of hashes and single hashes of <= 3 members, next to "
         "members holding a look-alike key (the key without its backslashes, with them doubled, unquoted, cut at the comma ...) "
@@ -325,7 +343,7 @@ def opt_sampled(path, empty):
 def null_in_front(c):
     """Is a node the keyword is applied to null?  The default retrieval mode treats a null node as one still to be built
     and hands it on without applying the segment (C09's subject): not judged."""
-    for at in c["ats"]:
+    for at in c["ats"] + c.get("via", []):       # `via`: nodes an earlier segment of the path selected and handed on
         j = c["doc"]
         for kind, ref in at:
             if j["k"] == "map":
@@ -431,7 +449,8 @@ def kw_chunk(cases):
             want = [(r[1] if r is not None else None) for r in mnames]
             got = im.get("names", []) if "err" not in im else []
             if got != want:
-                viol.append(("kw-mismatch:NAME", what + " yielded %s; held under %s" % (got, want), case))
+                viol.append(("kw-mismatch:NAME", what + " %s; held under %s" % (
+                    "was refused (YAML Path error)" if "err" in im else "yielded %s" % got, want), case))
                 continue
             if want and want[0] is not None:
                 stats["nontrivial"] += 1
@@ -444,7 +463,8 @@ def kw_chunk(cases):
         got = im.get("nodes", []) if "err" not in im else []
         if got != mnodes:
             sig = "kw-mismatch:%s%s:%s" % ("!" if c["inv"] else "", c["kw"], c["fam"].split("/")[0])
-            viol.append((sig, what + " yielded %s; by definition %s" % (got, mnodes), case))
+            viol.append((sig, what + " %s; by definition %s" % (
+                "was refused (YAML Path error)" if "err" in im else "yielded %s" % got, mnodes), case))
             continue
         if c.get("pref") and "err" not in im and False in im.get("held", []):
             bad = [a for a, h in zip(got, im["held"]) if h is False]
@@ -777,6 +797,61 @@ def deep_parent_cases(rng, nrandom):
                                   "members": 0, "reach": reach})
             cases.append({"fam": "name/deep-traversal-" + pk, "doc": dj, "path": path, "ats": ats, "kw": "NAME", "inv": False,
                           "params": "", "members": 0, "reach": reach})
+    return cases
+
+
+def fslash(path):
+    """A dot-notation key / index path (plain keys) in forward-slash notation."""
+    return "/" + path.replace(".", "/")
+
+
+def wild_parent_cases(rng, nrandom):
+    """parent(n) as the FILTER of a wildcard: `<container>.*[parent(n)]` and `<container>.**[parent(n)]` for every non-empty
+    container of PARENT_DOCS, DEEP_DOCS and `nrandom` seeded documents (root included, so the selected nodes start at depth 1),
+    n in default, 0..4; name() of each climbed ancestor; chained climbs `…*[parent(m)][parent(n)]` (the second climb may reach
+    the root or pass it); a third of the paths in forward-slash notation.  `*` followed by a segment selects every child for
+    which that segment matches, `**` every node at or below the container (a node before its children), and parent(n)
+    matches every node that has n ancestors: so the result is the n-th ancestor of each of those nodes, in order, and a
+    refusal exactly when one of them lies less than n levels below the root.  The wildcards evaluate the following segment
+    once as a test and once for the result - the answer must not depend on that."""
+    cases = []
+    docs = list(PARENT_DOCS) + list(DEEP_DOCS)
+    while len(docs) < len(PARENT_DOCS) + len(DEEP_DOCS) + nrandom:
+        d = random_deep_doc(rng)
+        if isinstance(d, (dict, list)) and d:
+            docs.append(d)
+    k = 0
+    for d in docs:
+        dj = plain_to_json(d)
+        nodes = list(all_nodes(d))
+        for addr, path in nodes:
+            sub = [a for a, _p in nodes if a[:len(addr)] == addr]
+            kids = [a for a in sub if len(a) == len(addr) + 1]
+            if not kids:
+                continue
+            depth = len(addr)
+            for star, ats, fam in ((path + ".*" if path else "*", kids, "wildcard"),
+                                   (path + ".**" if path else "**", sub, "deep-wildcard")):
+                k += 1
+                if k % 3 == 0:
+                    star = fslash(star)
+                least = min(len(a) for a in ats)
+                for n in ["", "0", "1", "2", "3", "4"]:
+                    steps = 1 if n == "" else int(n)
+                    if steps > least + 1:
+                        continue
+                    cases.append({"fam": "parent/" + fam, "doc": dj, "path": star, "ats": ats, "kw": "PARENT", "inv": False,
+                                  "params": n, "members": 0})
+                    if steps <= least:
+                        up = [a[:len(a) - steps] for a in ats]
+                        cases.append({"fam": "name/" + fam, "doc": dj, "path": "%s[parent(%s)]" % (star, n), "ats": up,
+                                      "kw": "NAME", "inv": False, "params": "", "members": 0, "via": ats})
+                        # a second climb from the ancestors the first one reached: up to the root, and one level too far
+                        for n2 in ["", "0", "2"] + ([str(least - steps)] if least - steps > 2 else []):
+                            s2 = 1 if n2 == "" else int(n2)
+                            if s2 <= least - steps + 1:
+                                cases.append({"fam": "parent/%s-chained" % fam, "doc": dj, "path": "%s[parent(%s)]" % (star, n),
+                                              "ats": up, "kw": "PARENT", "inv": False, "params": n2, "members": 0, "via": ats})
     return cases
 
 
@@ -1192,6 +1267,261 @@ def coll_seq_cases(rng, tier):
     return cases
 
 
+# --------------------------------------------------------------------------- has_child(&NAME): anchored children, merge keys, histories
+
+def anchor_doc_text(rng):
+    """YAML text of a document whose root holds only hashes (and, in AoH mode, one list of hashes `lst`): 1-3 anchored source
+    hashes `base<i>: &m<i>` (a later one may merge an earlier one), 2-5 hashes `h<i>` that merge one or two sources through a
+    YAML merge key (`<<: *m0`, `<<: [*m0, *m1]`) or none, hold scalar values with an anchor of their own (`v: &s0 5`), aliases
+    of those (`w: *s0`) and anchored keys (`&k0 kk: 1`).  No hash holds an anchored HASH as a plain value."""
+    lines = []
+    nsrc = rng.randint(1, 3)
+    for i in range(nsrc):
+        lines.append("base%d: &m%d" % (i, i))
+        if i and rng.random() < 0.3:
+            lines.append("  <<: *m%d" % rng.randrange(i))
+        lines.append("  x: %d" % i)
+        lines.append("  y: %s" % rng.choice(["1", "a", "2"]))
+    sanch, kanch = [], []
+
+    def hash_body(ind, first=""):
+        out = []
+        r = rng.random()
+        if r < 0.45:
+            out.append("<<: *m%d" % rng.randrange(nsrc))
+        elif r < 0.65 and nsrc > 1:
+            out.append("<<: [%s]" % ", ".join("*m%d" % j for j in rng.sample(range(nsrc), 2)))
+        out.append("own: %d" % rng.randint(0, 2))
+        r = rng.random()
+        if r < 0.3:
+            sanch.append("s%d" % len(sanch))
+            out.append("v: &%s %s" % (sanch[-1], rng.choice(["5", "a"])))
+        elif r < 0.5 and sanch:
+            out.append("w: *%s" % rng.choice(sanch))
+        if rng.random() < 0.2:
+            kanch.append("k%d" % len(kanch))
+            out.append("&%s kk: 1" % kanch[-1])
+        return [(first if j == 0 else ind) + x for j, x in enumerate(out)]
+
+    nh = rng.randint(2, 5)
+    for i in range(nh):
+        lines.append("h%d:" % i)
+        lines += hash_body("  ", "  ")
+    aoh = rng.random() < 0.4
+    if aoh:
+        lines.append("lst:")
+        for i in range(rng.randint(1, 4)):
+            lines += hash_body("    ", "  - ")
+    return "\n".join(lines) + "\n", aoh
+
+
+def anchor_name_of(node):
+    a = getattr(node, "anchor", None)
+    return a.value if a is not None else None
+
+
+def has_anchored_child(h, name):
+    """The clause, read off the ruamel tree: the hash has a child - a key, a value, or a YAML merge key reference
+    `<<: *NAME` - carrying the Anchor / Alias name."""
+    if any(anchor_name_of(src) == name for (_i, src) in getattr(h, "merge", [])):
+        return True
+    own = h.non_merged_items() if hasattr(h, "non_merged_items") else h.items()
+    return any(anchor_name_of(k) == name or anchor_name_of(v) == name for k, v in own)
+
+
+def all_anchor_names(node, out, seen=None):
+    from ruamel.yaml.comments import CommentedMap
+    seen = set() if seen is None else seen
+    if id(node) in seen:
+        return
+    seen.add(id(node))
+    n = anchor_name_of(node)
+    if n:
+        out.add(n)
+    if isinstance(node, CommentedMap):
+        for (_i, src) in getattr(node, "merge", []):
+            all_anchor_names(src, out, seen)
+        for k, v in node.non_merged_items():
+            all_anchor_names(k, out, seen)
+            all_anchor_names(v, out, seen)
+    elif isinstance(node, list):
+        for v in node:
+            all_anchor_names(v, out, seen)
+
+
+def ask_refs(proc, path, mustexist):
+    """parentrefs of the results (each result must be what its parent holds there) | {"err": …}"""
+    out = []
+
+    def go():
+        for nc in proc.get_nodes(path, mustexist=mustexist):
+            if nc.parent is None or nc.parent[nc.parentref] is not nc.node:
+                out.append(["?", repr(nc.parentref)])
+            else:
+                out.append(nc.parentref)
+    st, val = cc.guarded(go)
+    if st == "ok":
+        return out
+    if st == "timeout":
+        return {"err": "timeout"}
+    if core.exc_class(val) == "ypath" and not out and mustexist:
+        return []
+    return {"err": core.exc_class(val), "site": core.crash_site(val)}
+
+
+def anchor_queries(data, names, aoh):
+    """[(path, candidates container key | None, NAME, inverted)] of a document."""
+    from ruamel.yaml.comments import CommentedMap
+    qs = []
+    for n in names:
+        for inv in (False, True):
+            kw = "[%shas_child(&%s)]" % ("!" if inv else "", n)
+            qs.append(("/h*" + kw, "h*", n, inv))
+            if not aoh:
+                qs.append(("/*" + kw, "*", n, inv))
+            elif isinstance(data.get("lst"), list) and data["lst"] and all(isinstance(e, CommentedMap) for e in data["lst"]):
+                qs.append(("/lst" + kw, "lst", n, inv))
+                qs.append(("lst.*" + kw, "lst", n, inv))
+            if "h0" in data:
+                qs.append(("/h0" + kw, "h0", n, inv))
+    return qs
+
+
+def anchor_expect(data, where, name, inv):
+    from ruamel.yaml.comments import CommentedMap
+    if where == "lst":
+        return [i for i, e in enumerate(data["lst"]) if has_anchored_child(e, name) != inv]
+    if where == "h0":
+        return ["h0"] if has_anchored_child(data["h0"], name) != inv else []
+    return [k for k, v in data.items() if isinstance(v, CommentedMap) and (where == "*" or str(k).startswith("h"))
+            and has_anchored_child(v, name) != inv]
+
+
+GENERIC_QUERIES = ["/h*[has_child(own)]", "/h*[has_child(v)]", "/h*[!has_child(x)]", "/*[x=0]", "/h*[own>0]", "/*[max(own)]", "/h0[parent()]"]
+
+
+def anchor_history_chunk(cases):
+    """cases: [{"text", "aoh", "steps": [[op, args…]], "mustexist"}] - ONE document object and ONE Processor per case: ask every
+    has_child(&NAME) query (plain and inverted, over the root's hashes through `*` and `h*`, over the Array-of-Hashes, on a
+    single hash), apply an edit step through the same Processor, ask again, ...  Each answer is judged (a) by the clause on the
+    CURRENT content of the document (has_anchored_child) and (b) against a fresh Processor over an independent copy of the
+    current content (dumped and loaded again): the property quantifies over documents, so an answer may depend on the content
+    only, not on what was asked or changed before."""
+    import io
+    from yamlpath import Processor
+    from yamlpath.common import Parsers
+    from ruamel.yaml.comments import CommentedMap
+    stats = {"n": 0, "nontrivial": 0, "oom": 0, "fam": {}, "skipped": 0}
+    viol = []
+
+    def bump(k, n=1):
+        stats["fam"][k] = stats["fam"].get(k, 0) + n
+
+    for c in cases:
+        yaml = Parsers.get_yaml_editor()
+        st, data = cc.guarded(lambda: yaml.load(c["text"]))
+        if st != "ok" or not isinstance(data, CommentedMap):
+            stats["skipped"] += 1
+            continue
+        proc = Processor(core.quiet_logger(), data)
+        seen_names = set()
+        done = []
+        for si in range(len(c["steps"]) + 1):
+            if si:
+                step = c["steps"][si - 1]
+                def edit():
+                    op = step[0]
+                    if op == "ymk":
+                        proc.ymk_nodes(step[1], step[2], anchor_name=step[3])
+                    elif op == "alias":
+                        proc.alias_nodes(step[1], step[2], anchor_name=step[3])
+                    elif op == "set":
+                        proc.set_value(step[1], step[2])
+                    elif op == "del":
+                        proc.delete_nodes(step[1])
+                st, val = cc.guarded(edit)
+                done.append(step + [st if st == "ok" else core.exc_class(val) if st == "exc" else st])
+                bump("anchor-history/step:" + step[0] + (":refused" if st != "ok" else ""))
+                if st == "timeout":
+                    break
+            names = set()
+            all_anchor_names(data, names)
+            seen_names |= names
+            fam = "has_child-anchor/" + ("first-query" if si == 0 else "after-edits")
+            # an independent copy of the current content
+            copy_doc = None
+            def mk_copy():
+                buf = io.StringIO()
+                Parsers.get_yaml_editor().dump(data, buf)
+                return Parsers.get_yaml_editor().load(buf.getvalue())
+            st, val = cc.guarded(mk_copy)
+            if st == "ok" and isinstance(val, CommentedMap):
+                copy_doc = val
+            what = lambda: " (document %r%s)" % (c["text"], "".join("; then %s" % d for d in done))
+            for (path, where, name, inv) in anchor_queries(data, sorted(seen_names) + ["q"], c["aoh"]):
+                stats["n"] += 1
+                got = ask_refs(proc, path, c["mustexist"])
+                case = dict(c, kind="anchor-history", upto=si, query=path)
+                if isinstance(got, dict):
+                    if got["err"] == "ypath":
+                        got = []
+                    else:
+                        viol.append(("%s@%s" % (got["err"], got.get("site")), "%s raised %s%s" % (path, got["err"], what()), case))
+                        continue
+                want = anchor_expect(data, where, name, inv)
+                bump(fam)
+                if got != want:
+                    viol.append(("direct:%shas_child-anchor-not-the-hashes-%s-the-child:%s" % (
+                                    "!" if inv else "", "lacking" if inv else "having", "first-query" if si == 0 else "after-edits"),
+                                 "%s yielded %s; the hashes %s a child anchored / aliased / merged as &%s are %s%s" % (
+                                     path, got, "lacking" if inv else "having", name, want, what()), case))
+                    continue
+                if want and len(want) < len(anchor_expect(data, where, name, False)) + len(anchor_expect(data, where, name, True)):
+                    stats["nontrivial"] += 1
+                    if any(hasattr(data.get(k) if where != "lst" else data["lst"][k], "merge")
+                           and getattr(data.get(k) if where != "lst" else data["lst"][k], "merge") for k in want):
+                        bump("has_child-anchor/through-merge-key")
+            if copy_doc is None or si == 0:
+                continue
+            fresh = Processor(core.quiet_logger(), copy_doc)
+            for path in GENERIC_QUERIES:        # (anchors of plain scalars do not all survive a dump: only queries that ignore them)
+                stats["n"] += 1
+                got = ask_refs(proc, path, c["mustexist"])
+                ref = ask_refs(fresh, path, c["mustexist"])
+                bump("history/answer-vs-fresh-copy")
+                if got != ref and not (isinstance(got, dict) and isinstance(ref, dict) and got["err"] == ref["err"]):
+                    viol.append(("history:answer-depends-on-earlier-steps",
+                                 "%s yielded %s on the document object that was queried and edited before, %s on an independent copy "
+                                 "of its current content%s" % (path, got, ref, what()),
+                                 dict(c, kind="anchor-history", upto=si, query=path)))
+    return stats, viol[:40], [], []
+
+
+def anchor_history_cases(rng, n):
+    cases = []
+    for i in range(n):
+        text, aoh = anchor_doc_text(rng)
+        nh = text.count("\nh") + (1 if text.startswith("h") else 0)
+        nb = text.count("base")
+        steps = []
+        for j in range(rng.randint(0, 3)):
+            r = rng.random()
+            hk = "/h%d" % rng.randrange(max(1, nh))
+            if r < 0.4:
+                src = "/base%d" % rng.randrange(nb)          # only the source hashes are merged: no reference cycles
+                steps.append(["ymk", hk, src, rng.choice(["", "n%d" % j, "shared"])])
+            elif r < 0.55:
+                steps.append(["alias", hk + "/own", "/h%d/own" % rng.randrange(max(1, nh)), rng.choice(["", "a%d" % j])])
+            elif r < 0.75:
+                steps.append(["set", hk + rng.choice(["/own", "/v", "/new"]), rng.choice([7, "z"])])
+            elif r < 0.9:
+                steps.append(["del", hk + rng.choice(["/own", "/v", "/w", "/kk"])])
+            else:
+                steps.append(["del", hk])
+        cases.append({"text": text, "aoh": aoh, "steps": steps, "mustexist": i % 2 == 0})
+    return cases
+
+
 def check_tables(chk):
     from yamlpath.enums import PathSearchKeywords
     live = {k.name: str(k) for k in PathSearchKeywords}
@@ -1209,7 +1539,8 @@ def run(chk: core.Check):
         c = rp.get("case", rp)
         res = (split_chunk([c["params"]]) if c.get("kind") == "split" else
                coll_kw_chunk([c]) if c.get("kind") == "collkw" else
-               coll_seq_chunk([c]) if c.get("kind") == "collseq" else kw_chunk([c]))
+               coll_seq_chunk([c]) if c.get("kind") == "collseq" else
+               anchor_history_chunk([c]) if c.get("kind") == "anchor-history" else kw_chunk([c]))
         st, viol, disag, _ = res
         print("replay:", json.dumps({"case": c, "violations": [v[:2] for v in viol], "disagreements": [d[:2] for d in disag]},
                                     default=str, ensure_ascii=False))
@@ -1224,6 +1555,9 @@ def run(chk: core.Check):
     cases = seq_cases(5) + hash_cases(4, rng, tier) + parent_cases() + odd_cases()
     cases += deep_parent_cases(rng, 60 if tier == "quick" else 600)
     cases += slice_parent_cases(random.Random(chk.seed * 17 + 1), 60 if tier == "quick" else 600)
+    wild = wild_parent_cases(random.Random(chk.seed * 23 + 5), 40 if tier == "quick" else 400)
+    chk.extra_cov["wildcard_parent_cases"] = len(wild)
+    cases += wild
     cases += random_cases(rng, 3000 if tier == "quick" else 100000)
     odd = oddkey_cases(random.Random(chk.seed * 31 + 7), tier)
     chk.extra_cov["oddkey_cases"] = len(odd)
@@ -1239,6 +1573,10 @@ def run(chk: core.Check):
     cseq = coll_seq_cases(random.Random(chk.seed * 19 + 9), tier)
     chk.extra_cov["collector_then_keyword_cases"] = len(cseq)
     for r in core.pmap(coll_seq_chunk, core.chunked(cseq, 64)):
+        _absorb(chk, *r)
+    hist = anchor_history_cases(random.Random(chk.seed * 29 + 11), 300 if tier == "quick" else 6000)
+    chk.extra_cov["anchor_history_cases"] = len(hist)
+    for r in core.pmap(anchor_history_chunk, core.chunked(hist, 16)):
         _absorb(chk, *r)
     chk.exhaustive = True
     chk.extra_cov["exhaustive_bound"] = ("all sequences of length <= 5 over 3 values x 7 value triples; all AoH (5 member states) "
